@@ -298,6 +298,41 @@ def refit(ctx: Ctx) -> None:
                               "each with its own optimiser)", {"features": feats, "epochs": [k1, k2], "validation": validation})
 
 
+def partial_optimizer(ctx: Ctx) -> None:
+    """An optimiser INSTANCE that owns only part of the model: fit() updates through it and through nothing else - the other
+    parameters keep their values, and the owned ones equal the explicit loop with that very optimiser."""
+    from pfhedge.nn import EntropicRiskMeasure
+    for feats in (["moneyness", "time_to_maturity", "prev_hedge"], ["log_moneyness", "time_to_maturity", "volatility"]):
+        for k, validation in ((1, False), (3, True)):
+            cfg = {"k": k, "n": 3, "ntimes": 1, "validation": validation, "optclass": False, "lazy": False, "init": "default", "pre_eval": False, "extra": False, "stale": False}
+            script = make_script(random.Random(ctx.seed * 11 + k), 2 + k * 2)
+            stock, deriv, model, hedger = build(cfg, script, [], feats, EntropicRiskMeasure(0.5))
+            params = list(model.parameters())
+            owned_, frozen = params[:1], params[1:]
+            if not frozen:
+                raise MachineryError("the recording model has a single parameter tensor")
+            before = [p.detach().clone() for p in frozen]
+            hedger.fit(deriv, n_epochs=k, n_paths=3, n_times=1, optimizer=torch.optim.SGD(owned_, lr=2.0 ** -3), verbose=False, validation=validation)
+            stock2, deriv2, model2, ref = build(cfg, script, [], feats, EntropicRiskMeasure(0.5))
+            opt = torch.optim.SGD(list(model2.parameters())[:1], lr=2.0 ** -3)
+            for _ in range(k):
+                ref.train(); opt.zero_grad()
+                deriv2.simulate(n_paths=3)
+                ref.criterion(ref.compute_portfolio(deriv2), deriv2.payoff()).backward()
+                opt.step()
+                if validation:
+                    ref.eval()
+                    with torch.no_grad():
+                        deriv2.simulate(n_paths=3)
+                        ref.criterion(ref.compute_portfolio(deriv2), deriv2.payoff())
+            ctx.count(json.dumps(["partial-optimizer", feats, k, validation]), n=1)
+            if not all(torch.equal(a, b.detach()) for a, b in zip(before, frozen)):
+                ctx.violation("fit:updates-outside-optimizer", "fit() changed parameters that the supplied optimiser instance does not own", {"features": feats, "epochs": k})
+            elif not all(torch.equal(a.detach(), b.detach()) for a, b in zip(model.parameters(), model2.parameters())):
+                ctx.violation("fit:params-vs-explicit-loop", "fit() with an optimiser instance owning part of the model yields different parameters than the explicit loop with that optimiser",
+                              {"features": feats, "epochs": k})
+
+
 def check(ctx: Ctx) -> None:
     warnings.filterwarnings("ignore")
     from pfhedge.nn import EntropicRiskMeasure, ExpectedShortfall
@@ -370,6 +405,7 @@ def check(ctx: Ctx) -> None:
     ctx.sample({"fit_trace": {"cfg": traces[-1]["cfg"], "events": traces[-1]["events"][:10]}})
     real_primary_seeded(ctx)
     refit(ctx)
+    partial_optimizer(ctx)
     # ---- binding demonstration (synthetic, independent of /repo): the canonical behaviour of the automaton is accepted,
     # and dropping ZeroGrad in the second epoch / validating in train mode / an extra optimiser step is rejected
     cfg = {"k": 2, "n": 2, "ntimes": 2, "validation": True, "optclass": False, "lazy": False, "init": "default", "pre_eval": False, "extra": False, "stale": False}
